@@ -321,7 +321,7 @@ def k_session(run, case):
     from evo.core.trajectory import Plane
     from evo.core.units import Unit
     rng = run.rng(case)
-    n = int(rng.integers(6, 50))
+    n = int(rng.integers(4, 10) if rng.random() < .4 else rng.integers(6, 50))
     ref = gen.traj_arrays(rng, n, pos_cls=["walk", "circle", "utm"][rng.integers(3)], rot_cls=["smooth", "uniform"][rng.integers(2)],
                           stamp_cls=["small", "epoch"][rng.integers(2)])
     for k in range(1, n):
@@ -340,7 +340,12 @@ def k_session(run, case):
     for j in range(n_eval):
         rel = ["translation_part", "rotation_angle_deg", "full_transformation", "point_distance", "rotation_part"][rng.integers(5)]
         plane = [None, "xy", "xz", "yz"][rng.integers(4)] if j > 0 else None
-        kw = dict(delta=float(rng.integers(1, max(2, n // 3))), delta_unit=Unit.frames, all_pairs=bool(rng.random() < .3),
+        du = ["f", "f", "m", "d"][rng.integers(4)]
+        path = float(np.sum(np.linalg.norm(np.diff(est["p"], axis=0), axis=1)))
+        dl = float(rng.integers(1, max(2, n // 3))) if du == "f" else \
+            path / n * float(rng.uniform(0.7, 3)) if du == "m" else float(rng.uniform(5, 60))
+        kw = dict(delta=dl, delta_unit={"f": Unit.frames, "m": Unit.meters, "d": Unit.degrees}[du],
+                  all_pairs=bool(rng.random() < (.3 if du == "f" else .6)), rel_delta_tol=float([0.1, 0.3, 0.5][rng.integers(3)]),
                   align=bool(rng.random() < .4), correct_scale=bool(rng.random() < .4), support_loop=True,
                   project_to_plane=Plane(plane) if plane else None)
         history.append("%s%s%s" % (rel, " +project " + plane if plane else "", " +align" if kw["align"] or kw["correct_scale"] else ""))
@@ -348,7 +353,21 @@ def k_session(run, case):
         history[-1] = tool + ":" + history[-1]
         with core.quiet():
             if tool == "rpe":
-                out = contracts.outcome_of(main_rpe.rpe, t_ref, t_est, metrics.PoseRelation[rel], **kw)
+                with C02.PairRecorder() as prec:
+                    out = contracts.outcome_of(main_rpe.rpe, t_ref, t_est, metrics.PoseRelation[rel], **kw)
+                if out[0] == "ok" and len(prec.calls) == 1:
+                    # the stored trajectories are the processed ones restricted to first pose + pair ends
+                    ids = [0] + [j for (_, j) in prec.calls[0]["pairs"]]
+                    names = list(out[1].trajectories)
+                    okk = len(names) == 2
+                    for nm, src in zip(names, (t_ref, t_est)):
+                        got, full = gen.read_views(out[1].trajectories[nm]), gen.read_views(src)
+                        okk = okk and len(got["p"]) == len(ids) and core.bits_equal(got["p"], full["p"][ids]) and \
+                            (not stamped or core.bits_equal(got["t"], full["t"][ids]))
+                    run.check(okk, "RPE result stores the processed trajectories restricted to first pose + pair ends", case,
+                              "evaluation %d (%s, %s%s): the stored trajectories are not the processed ones at poses %s.." %
+                              (j, history[-1], du, " all_pairs" if kw["all_pairs"] else "", ids[:8]),
+                              key="session:rpe-stored-trajectories")
             else:
                 # ape() works in place on what it is given: the user hands over deep copies of
                 # the (already used) objects and keeps the originals
